@@ -502,13 +502,14 @@ int bufr_getstring( BUFR_Message *bufr, char *str, int len)
    uint64_t   c;
    int        errcode;
 
+   errcode = 0;
    for ( i = 0 ; i < len ; i++ )
       {
       c = bufr_getbits( bufr, 8, &errcode );
-      str[i] = c & 0xff;
       if (errcode < 0) break;
+      str[i] = c & 0xff;
       }
-   str[len] = '\0';
+   str[i] = '\0';   /* after a short read the string ends where the data did */
    return errcode;
    }
 
